@@ -1,0 +1,119 @@
+//go:build verif
+
+// Contracts for package carreader (comment-only; read by /verif/vcgo, build tag verif).
+//
+// Section geometry (C01 item 2, C15), with the reader ghosts consumed(r) (position), fsize(r), fbyte(r, k) (content):
+//     err == nil ==> consumed(br) == old(consumed(br)) + <returned section length>
+// i.e. the returned length (uvarint width + payload length) is exactly the number of bytes taken from the reader, the
+// length prefix is the uvarint found at the old position, and the returned data are the last len(data) bytes of the section.
+// Library models used (trusted, in vcgo/lib.go): (*bufio.Reader).Peek, binary.ReadUvarint (unrolled over the contract of
+// (*byteReaderWithCounter).ReadByte), cid.CidFromReader (takes exactly the returned number of bytes), io.CopyN, io.ReadFull,
+// and util.MaxAllowedSectionSize taken as its initialiser value 32<<20.
+// Known engine residue: io.CopyN bumps written(io.Discard) (frame[HG_written] of ReadNodeInfoWithoutData), and the address
+// of a local (`&buf` in HeaderSize) is not known to be fresh (frame[HG_written]/[HG_consumed] of HeaderSize).
+package carreader
+
+//@ func alignValueToPageSize
+//@   mode bv
+
+// Body is two third-party calls (go-car util.LdRead, go-ipld-cbor DecodeInto): trusted.
+//@ func ReadHeader
+//@   mode int
+//@   trusted
+//@   ensures result1 == nil ==> result0 != nil && fresh(result0)
+//@   ensures result1 != nil ==> result0 == nil
+
+//@ func New
+//@   mode int
+//@   ensures result1 == nil ==> result0 != nil && fresh(result0) && result0.br != nil && result0.Header != nil && result0.headerSize == nil
+//@   ensures result1 != nil ==> result0 == nil
+
+//@ func (*CarReader) HeaderSize
+//@   mode int
+//@   modifies cr
+//@   ensures result1 == nil ==> cr.headerSize != nil && result0 == *cr.headerSize
+//@   ensures old(cr.headerSize) != nil ==> result1 == nil && cr.headerSize == old(cr.headerSize)
+//@   ensures cr.br == old(cr.br) && cr.Header == old(cr.Header)
+
+// ---- uvarint length prefix ----
+
+//@ func (*byteReaderWithCounter) ReadByte
+//@   mode int
+//@   requires b.ByteReader != nil
+//@   modifies b, consumed(b.ByteReader)
+//@   ensures b.ByteReader == old(b.ByteReader)
+//@   ensures result1 == nil ==> b.Offset == old(b.Offset) + 1 && consumed(b.ByteReader) == old(consumed(b.ByteReader)) + 1
+//@   ensures result1 == nil ==> result0 == fbyte(b.ByteReader, old(consumed(b.ByteReader))) && old(consumed(b.ByteReader)) < fsize(b.ByteReader)
+//@   # (the io.ByteReader model lets a failing ReadByte take 0 or 1 byte)
+//@   ensures result1 != nil ==> b.Offset == old(b.Offset) && old(consumed(b.ByteReader)) <= consumed(b.ByteReader) && consumed(b.ByteReader) <= old(consumed(b.ByteReader)) + 1
+
+// uvarint of width w at position p of r's content with value v (w in 1..10; the tenth byte may only be 0 or 1)
+//@ spec func uvd(r *bufio.Reader, p int, j int) uint64 = uint64(fbyte(r, p+j)) % 128
+//@ spec func isUvarintAt(r *bufio.Reader, p int, v uint64, w int) bool = 1 <= w && w <= 10 && fbyte(r, p+w-1) < 128 && (w == 10 ==> fbyte(r, p+9) <= 1) && (forall j int :: 0 <= j && j < w-1 ==> fbyte(r, p+j) >= 128) && v == uvd(r,p,0) + ite(w > 1, uvd(r,p,1)*128, 0) + ite(w > 2, uvd(r,p,2)*16384, 0) + ite(w > 3, uvd(r,p,3)*2097152, 0) + ite(w > 4, uvd(r,p,4)*268435456, 0) + ite(w > 5, uvd(r,p,5)*34359738368, 0) + ite(w > 6, uvd(r,p,6)*4398046511104, 0) + ite(w > 7, uvd(r,p,7)*562949953421312, 0) + ite(w > 8, uvd(r,p,8)*72057594037927936, 0) + ite(w > 9, uvd(r,p,9)*9223372036854775808, 0)
+
+// result0 = l (payload length: CID + data), result1 = ll (width of the uvarint that encodes l).
+//@ func ReadSectionLength
+//@   mode int
+//@   requires r != nil
+//@   modifies consumed(r)
+//@   ensures result2 != nil ==> result0 == 0 && result1 == 0
+//@   ensures old(consumed(r)) <= consumed(r) && consumed(r) <= old(consumed(r)) + 10
+//@   ensures result2 == nil ==> 1 <= result1 && result1 <= 10
+//@   ensures result2 == nil ==> result0 <= 33554432
+//@   ensures result2 == nil ==> consumed(r) == old(consumed(r)) + int(result1) && consumed(r) <= fsize(r)
+//@   ensures result2 == nil ==> isUvarintAt(r, old(consumed(r)), result0, int(result1))
+
+// ---- sections ----
+
+// result1 = sectionLen + ll = bytes consumed; result2 = the section minus length prefix and CID.
+//@ func ReadNodeInfoWithData
+//@   mode int
+//@   requires br != nil
+//@   modifies consumed(br)
+//@   ensures result3 != nil ==> result1 == 0 && result2 == nil
+//@   ensures old(consumed(br)) <= consumed(br)
+//@   ensures result3 == nil ==> fresh(result2) && 1 <= result1 && result1 <= 33554432 + 10
+//@   ensures result3 == nil ==> len(result2) + 1 <= result1
+//@   ensures result3 == nil ==> consumed(br) == old(consumed(br)) + int(result1) && consumed(br) <= fsize(br)
+//@   ensures result3 == nil ==> forall k int :: 0 <= k && k < len(result2) ==> result2[k] == fbyte(br, old(consumed(br)) + int(result1) - len(result2) + k)
+//@   ensures result3 == nil ==> exists w int :: isUvarintAt(br, old(consumed(br)), result1 - uint64(w), w)
+
+//@ func ReadNodeInfoWithoutData
+//@   mode int
+//@   requires br != nil
+//@   modifies consumed(br)
+//@   ensures result2 != nil ==> result1 == 0
+//@   ensures old(consumed(br)) <= consumed(br)
+//@   ensures result2 == nil ==> 1 <= result1 && result1 <= 33554432 + 10
+//@   ensures result2 == nil ==> consumed(br) == old(consumed(br)) + int(result1) && consumed(br) <= fsize(br)
+//@   ensures result2 == nil ==> exists w int :: isUvarintAt(br, old(consumed(br)), result1 - uint64(w), w)
+
+// ---- CarReader ----
+
+//@ func (*CarReader) NextInfo
+//@   mode int
+//@   requires cr.br != nil
+//@   modifies consumed(cr.br)
+//@   ensures result2 != nil ==> result1 == 0
+//@   ensures old(consumed(cr.br)) <= consumed(cr.br)
+//@   ensures result2 == nil ==> 1 <= result1 && result1 <= 33554432 + 10
+//@   ensures result2 == nil ==> consumed(cr.br) == old(consumed(cr.br)) + int(result1) && consumed(cr.br) <= fsize(cr.br)
+
+//@ func (*CarReader) NextNodeBytes
+//@   mode int
+//@   requires cr.br != nil
+//@   modifies consumed(cr.br)
+//@   ensures result3 != nil ==> result1 == 0 && result2 == nil
+//@   ensures old(consumed(cr.br)) <= consumed(cr.br)
+//@   ensures result3 == nil ==> fresh(result2) && 1 <= result1 && result1 <= 33554432 + 10 && len(result2) + 1 <= result1
+//@   ensures result3 == nil ==> consumed(cr.br) == old(consumed(cr.br)) + int(result1) && consumed(cr.br) <= fsize(cr.br)
+//@   ensures result3 == nil ==> forall k int :: 0 <= k && k < len(result2) ==> result2[k] == fbyte(cr.br, old(consumed(cr.br)) + int(result1) - len(result2) + k)
+
+//@ func (*CarReader) NextNode
+//@   mode int
+//@   requires cr.br != nil
+//@   modifies consumed(cr.br)
+//@   ensures result3 != nil ==> result1 == 0 && result2 == nil
+//@   ensures old(consumed(cr.br)) <= consumed(cr.br)
+//@   ensures result3 == nil ==> result2 != nil && 1 <= result1 && result1 <= 33554432 + 10
+//@   ensures result3 == nil ==> consumed(cr.br) == old(consumed(cr.br)) + int(result1) && consumed(cr.br) <= fsize(cr.br)
